@@ -296,8 +296,8 @@ func checkC13(c *Ctx, r *Report) {
 				continue
 			}
 			nRaw++
-			// acceptable only inside a loop that accumulates the count
-			inLoop := reachable(ci.Block(), ci.Block(), nil)
+			// acceptable only inside a loop that asks for the remainder again
+			inLoop := accumulatingRead(ci)
 			r.Check("C13-fullread", fnName(fn), "raw "+c.exprAt(fn, ci.Pos()), c.pos(ci.Pos()), inLoop,
 				"inside a loop", "a single Read may return fewer bytes than the field is long (frame split over two TCP segments): use io.ReadFull")
 		}
@@ -397,6 +397,42 @@ func checkC13(c *Ctx, r *Report) {
 		} else {
 			o.Bad("a successful Write reports something other than len(p): callers would resend or skip data")
 		}
+	}
+
+	// received frames must not share storage: a frame variable that outlives one iteration of a
+	// receive loop is overwritten (ReadFrom reuses the data buffer when it is large enough) while
+	// earlier frames, passed on by value, still refer to it
+	nRecvLoops := 0
+	for _, fn := range c.SrcFuncs(pkg) {
+		for _, lp := range naturalLoops(fn) {
+			for b := range lp.body {
+				for _, in := range b.Instrs {
+					ci, ok := in.(ssa.CallInstruction)
+					if !ok {
+						continue
+					}
+					n := callName(ci.Common())
+					var addr ssa.Value
+					switch {
+					case strings.HasSuffix(n, ".TNC.read"):
+						addr = ci.Common().Args[1]
+					case strings.HasSuffix(n, ".frame.ReadFrom"):
+						addr = ci.Common().Args[0]
+					default:
+						continue
+					}
+					nRecvLoops++
+					al, isAlloc := addr.(*ssa.Alloc)
+					fresh := isAlloc && lp.body[al.Block()]
+					r.Check("C13-stream", fnName(fn), "frame read in a loop into fresh storage", c.pos(in.Pos()), fresh,
+						"the frame variable is allocated inside the loop: every received frame has its own data buffer",
+						"the frame read in this loop lives outside the loop: frame.ReadFrom reuses its data buffer, so frames already queued (or the rest Conn.Read keeps) are overwritten by the next frame")
+				}
+			}
+		}
+	}
+	if nRecvLoops == 0 {
+		r.Fail("C13-stream", "no receive loop reading frames found (anchor unresolved)")
 	}
 
 	// ---- C13-ops
@@ -587,13 +623,13 @@ func checkC13(c *Ctx, r *Report) {
 		scope:   func(fn *ssa.Function) bool { return pkgRel(fn) == pkg },
 		bcePkgs: []string{pkg},
 		exceptions: map[string]string{
-			"(*transport/ax25/agwpe.demux).run|index clients[i]":            "loop index discipline: i < len(clients) is tested at the top of every iteration and i-- only follows the removal of element i",
-			"(*transport/ax25/agwpe.demux).run|slice clients[:i]":           "same loop: 0 <= i < len(clients) holds where an element is removed",
-			"(*transport/ax25/agwpe.demux).run|slice clients[i + 1:]":       "same loop: i+1 <= len(clients)",
+			"(*transport/ax25/agwpe.demux).run|index clients[i]":                              "loop index discipline: i < len(clients) is tested at the top of every iteration and i-- only follows the removal of element i",
+			"(*transport/ax25/agwpe.demux).run|slice clients[:i]":                             "same loop: 0 <= i < len(clients) holds where an element is removed",
+			"(*transport/ax25/agwpe.demux).run|slice clients[i + 1:]":                         "same loop: i+1 <= len(clients)",
 			"(*transport/ax25/agwpe.frame).ReadFrom|make make([]byte, int(f.header.DataLen))": "the data length is a 32-bit field of the frame header: on 64-bit targets the conversion cannot be negative; the size is bounded by 4 GiB - allocation proportional to what the TNC announces (local TNC, see DESIGN.md C13)",
 		},
 		fatalIsOK: map[string]string{
-			"(*transport/ax25/agwpe.Conn).connect|panic panic(\"impossible\")":           "the awaited kinds (C, d) equal the switch arms: rule C13-ops checks the subscription; a frame of another kind cannot arrive on that channel",
+			"(*transport/ax25/agwpe.Conn).connect|panic panic(\"impossible\")":            "the awaited kinds (C, d) equal the switch arms: rule C13-ops checks the subscription; a frame of another kind cannot arrive on that channel",
 			"(*transport/ax25/agwpe.Port).write|panic panic(\"incorrect port in frame\")": "guards a local programming error: every constructor sets the port it is given and every call site passes the owning port (rule C13-ctor), so the test cannot fail on TNC input",
 		},
 	})
@@ -648,6 +684,60 @@ func streamReadRule(c *Ctx, r *Report, fn *ssa.Function, rule, field string) {
 		o.OK("every data-returning exit reports the result of copy(p, ...): any buffer size is accepted")
 	} else {
 		o.Bad("%s", why)
+	}
+	// end of stream is reported only when the data channel itself is closed (queued frames first)
+	o = r.Add(rule, where, "io.EOF only when the data channel is closed", c.pos(fn.Pos()))
+	eofOK, nEOF := true, 0
+	for _, ret := range returnsOf(fn) {
+		ld, ok := resOf(ret, 1).(*ssa.UnOp)
+		if !ok || !strings.HasSuffix(pathOf(ld), "io.EOF") {
+			continue
+		}
+		nEOF++
+		closedEdge := false
+		for _, cd := range condsAt(ret.Block()) {
+			v := cd.V
+			truth := cd.Truth
+			if u, isNot := v.(*ssa.UnOp); isNot && u.Op == token.NOT {
+				v, truth = u.X, !truth
+			}
+			ex, ok := v.(*ssa.Extract)
+			if !ok || truth {
+				continue
+			}
+			switch src := ex.Tuple.(type) {
+			case *ssa.UnOp: // v, ok := <-ch
+				if src.Op == token.ARROW && src.CommaOk && ex.Index == 1 && strings.Contains(pathOf(src.X), ".data") {
+					closedEdge = true
+				}
+			case *ssa.Select: // tuple (index, recvOk, values...): recvOk false on the data channel's arm
+				if ex.Index != 1 {
+					continue
+				}
+				for _, c2 := range condsAt(ret.Block()) {
+					bo, ok := c2.V.(*ssa.BinOp)
+					if !ok || bo.Op != token.EQL || !c2.Truth {
+						continue
+					}
+					if e0, ok := bo.X.(*ssa.Extract); ok && e0.Tuple == ssa.Value(src) && e0.Index == 0 {
+						k, _ := constInt(bo.Y)
+						if int(k) < len(src.States) && src.States[k].Dir == types.RecvOnly && strings.Contains(pathOf(src.States[k].Chan), ".data") {
+							closedEdge = true
+						}
+					}
+				}
+			}
+		}
+		if !closedEdge {
+			eofOK = false
+		}
+	}
+	if eofOK && nEOF > 0 {
+		o.OK("every return of io.EOF lies on the 'closed' edge of a receive from the data channel: frames queued before a disconnect are still delivered")
+	} else if nEOF == 0 {
+		o.Bad("Read never reports io.EOF")
+	} else {
+		o.Bad("Read can report io.EOF on a path other than 'data channel closed' (e.g. a disconnect signal racing with queued frames): the tail of the stream is lost")
 	}
 	o = r.Add(rule, where, "the rest of a frame is kept for the next Read", c.pos(fn.Pos()))
 	kept := 0
